@@ -74,7 +74,12 @@ impl C06 {
             ("injections", inj.len() as u64),
             ("universal", surj.len() as u64 * 81 * 3),
             ("semifinite", nf * 6),
+            ("coequalizer_structured", 0), // filled in below
+            ("wide_codomains", 3 * LARGE.len() as u64 * 40),
         ];
+        let mut families = families;
+        let ng = structured_graphs().len() as u64 + (LARGE.len() * 6) as u64;
+        families[7].1 = ng;
         C06 { funs, raw, inj, surj, families }
     }
 
@@ -340,6 +345,78 @@ impl C06 {
                 }
                 ensure(al.compose(&af).is_none(), || "semifinite ; finite should be undefined".into())?;
                 Ok(exp.is_some())
+            }
+            "coequalizer_structured" => {
+                // parallel maps f, g : E -> n read off structured / large sparse edge lists (deep union-find trees,
+                // sizes around powers of two)
+                let sg = structured_graphs();
+                let (f, g, n): (Vec<usize>, Vec<usize>, usize) = if (i as usize) < sg.len() {
+                    sg[i as usize].clone()
+                } else {
+                    let j = i as usize - sg.len();
+                    let n = LARGE[j / 6];
+                    if n < 2 {
+                        return Ok(false);
+                    }
+                    let pairs: Vec<(usize, usize)> = match j % 6 {
+                        0 => vec![],
+                        1 => vec![(0, 1), (n - 2, n - 1)],
+                        2 => vec![(0, n - 1)],
+                        3 => vec![(n - 1, 0), (n / 2, 0)],
+                        4 => (1..n.min(70)).map(|k| (k - 1, k)).collect(),
+                        _ => (0..(n / 2).min(70)).map(|k| (k, n - 1 - k)).collect(),
+                    };
+                    let (a_, b_): (Vec<usize>, Vec<usize>) = pairs.into_iter().unzip();
+                    (a_, b_, n)
+                };
+                let q = ff(&f, n).coequalizer(&ff(&g, n)).ok_or("coequalizer of parallel maps is None")?;
+                ensure(q.table.0.len() == n && is_dense_surjection(&q.table.0, q.target), || format!("coequalizer on {} elements is not a dense surjection", n))?;
+                // q coequalizes, and identifies nothing that is not linked: check against reference classes
+                let pairs: Vec<(usize, usize)> = f.iter().cloned().zip(g.iter().cloned()).collect();
+                let (rq, rk) = classes(n, &pairs);
+                ensure(q.target == rk, || format!("coequalizer on {} elements with {} pairs has {} classes, expected {}", n, pairs.len(), q.target, rk))?;
+                let mut m1: std::collections::HashMap<usize, usize> = Default::default();
+                let mut m2: std::collections::HashMap<usize, usize> = Default::default();
+                for j in 0..n {
+                    let x = *m1.entry(rq[j]).or_insert(q.table.0[j]);
+                    let y = *m2.entry(q.table.0[j]).or_insert(rq[j]);
+                    ensure(x == q.table.0[j] && y == rq[j], || format!("coequalizer on {} elements with {} pairs puts element {} in the wrong class", n, pairs.len(), j))?;
+                }
+                Ok(true)
+            }
+            "wide_codomains" => {
+                // short tables into codomains around powers of two
+                let len = (i / (LARGE.len() as u64 * 40)) as usize + 1; // 1..=3
+                let b = LARGE[((i / 40) % LARGE.len() as u64) as usize];
+                let code = i % 40;
+                if b == 0 {
+                    return Ok(false);
+                }
+                // entries chosen from {0, 1, b/2, b-2, b-1} (clamped), by the code
+                let cands = [0usize, 1.min(b - 1), b / 2, b.saturating_sub(2), b - 1];
+                let mut t = vec![];
+                let mut c = code;
+                for _ in 0..len {
+                    t.push(cands[(c % 5) as usize]);
+                    c /= 5;
+                }
+                if c != 0 {
+                    return Ok(false);
+                }
+                let fnew = FF::new(Arr(t.clone()), b).ok_or_else(|| format!("FiniteFunction::new({:?},{}) rejected in-range data", t, b))?;
+                ensure(FF::new(Arr(vec![b]), b).is_none() && FF::new(Arr(vec![0, b]), b).is_none(), || format!("FiniteFunction::new accepts the entry {} for codomain {}", b, b))?;
+                let inj = (0..t.len()).all(|p| (0..p).all(|q| t[p] != t[q]));
+                ensure(fnew.is_injective() == inj, || format!("({:?} -> {}).is_injective() = {}", t, b, !inj))?;
+                let idb = FF::identity(b);
+                ensure(Arrow::compose(&fnew, &idb).map(|r| r.table.0) == Some(t.clone()), || format!("({:?} -> {}) ; id", t, b))?;
+                ensure(idb.is_injective() && FF::twist(b, 1).is_injective() && (b < 2 || !FF::terminal(b).is_injective()), || format!("is_injective on identity / twist / terminal of size {}", b))?;
+                let tw = FF::twist(b, 2);
+                ensure(tw.table.0.len() == b + 2 && tw.table.0[0] == 2 && tw.table.0[b] == 0 && tw.table.0[b + 1] == 1, || format!("twist({},2)", b))?;
+                let tr = FF::transpose(b, 2);
+                ensure(tr.table.0.len() == 2 * b && (0..2).all(|q| (0..b).all(|r| tr.table.0[q * b + r] == r * 2 + q)), || format!("transpose({},2)", b))?;
+                let inj = fnew.inject1(3);
+                ensure(inj.target == b + 3 && inj.table.0 == t.iter().map(|x| x + 3).collect::<Vec<_>>(), || "inject1 at a wide codomain".into())?;
+                Ok(true)
             }
             other => Err(format!("unknown family {}", other)),
         }
